@@ -449,7 +449,7 @@ impl Property for C04 {
             real: &["src/source/{filesystem,tar,zip,embedded,mod}.rs", "src/utils/private.rs (path_of_entry, IdBuilder)", "macros/src/embedded.rs (the embed! walker, run at run time on the generated directory)", "crates tar, zip (with deflate), sync_file; the file system of the sandbox (a scratch directory per run)"],
             stub: &["archive reader: in-memory Read+Seek+Clone whose read/seek calls are scheduling points and fault points (short reads, EINTR, hard errors at open time or later)", "scheduler for 1-3 threads querying one source instance"],
             assumptions: &["the schedule dimension is thin here (readers share nothing mutable): most of the decision comes from generated trees, archive options and the reader-fault seam (stated in DESIGN §7 C04)", "names are valid (no '.' inside a component), no symbolic links"],
-            runs: (3_000, 150_000),
+            runs: (36_000, 1_000_000),
         }
     }
     fn generate(&self, g: &mut SplitMix, k: &mut SplitMix, _tier: Tier) -> (Knobs, Value) {
